@@ -27,7 +27,7 @@ def generate(rng, tier='quick', **kw):
                      'ok': (rng.random() < 0.8)} for _ in range(depth + 1)]
   if comb in ('ContinueWith', 'Map'):
     scn['src'] = {'ok': rng.random() < 0.6, 'pre': rng.random() < 0.4, 'at': 0.01}
-    scn['fn'] = rng.choice(['value', 'raise', 'nested'])
+    scn['fn'] = rng.choice(['value', 'raise', 'nested', 'raise_timeout'])
     scn['on_hub'] = rng.random() < 0.5
   return scn
 
@@ -218,6 +218,10 @@ def run(scn):
     calls.append((CLOCK.now, x))
     if scn['fn'] == 'raise':
       raise Err('fn')
+    if scn['fn'] == 'raise_timeout':
+      # what a bounded wait inside the continuation raises: gevent.Timeout is
+      # an exception, but not a subclass of Exception
+      raise gevent.Timeout(0.01)
     if scn['fn'] == 'nested':
       return inner
     return ('fn', 1)
@@ -243,6 +247,8 @@ def run(scn):
       REC.violation('C17', 'continuation_arg', 'continuation got %r' % (calls[0][1],), {'comb': comb})
     if scn['fn'] == 'raise':
       ok = cur is not None and cur[0] == 'exc' and isinstance(cur[1], Err)
+    elif scn['fn'] == 'raise_timeout':
+      ok = cur is not None and cur[0] == 'exc' and isinstance(cur[1], gevent.Timeout)
     elif scn['fn'] == 'nested':
       ok = cur is not None and cur[0] == 'val' and cur[1] is inner
     else:
@@ -255,6 +261,8 @@ def run(scn):
         REC.violation('C17', 'map_fn_calls', 'Map called fn %r for a successful source' % (calls,), {'comb': comb})
       if scn['fn'] == 'raise':
         ok = cur is not None and cur[0] == 'exc' and isinstance(cur[1], Err) and cur[1].args[0] == 'fn'
+      elif scn['fn'] == 'raise_timeout':
+        ok = cur is not None and cur[0] == 'exc' and isinstance(cur[1], gevent.Timeout)
       elif scn['fn'] == 'nested':
         ok = cur is not None and cur[0] == 'val' and cur[1] == ('inner', 1)
       else:
